@@ -1,5 +1,5 @@
 // Drives the real sedpack_rs::parallel_map::parallel_map with an instrumented plain `fn` and an
-// instrumented source iterator.  Input on argv: trials "n,T,seed,drop_at,fail_at" ...
+// instrumented source iterator.  Input on argv: trials "n,T,seed,drop_at,fail_at[,slow_at]" ...
 // Output: one JSON line per trial: results, number of source pulls when each result was returned,
 // outcome (done / dropped / panicked) and whether drop returned.
 use std::sync::atomic::{AtomicUsize, AtomicI64, Ordering};
@@ -8,6 +8,7 @@ use std::sync::Mutex;
 static PULLS: AtomicUsize = AtomicUsize::new(0);
 static SEED: AtomicUsize = AtomicUsize::new(1);
 static FAIL_AT: AtomicI64 = AtomicI64::new(-1);
+static SLOW_AT: AtomicI64 = AtomicI64::new(-1);
 static CALLS: Mutex<Vec<i64>> = Mutex::new(Vec::new());
 
 fn work(x: i64) -> i64 {
@@ -15,6 +16,10 @@ fn work(x: i64) -> i64 {
     let s = SEED.load(Ordering::SeqCst) as u64;
     let h = (x as u64).wrapping_mul(6364136223846793005).wrapping_add(s.wrapping_mul(1442695040888963407)) >> 33;
     std::thread::sleep(std::time::Duration::from_micros(h % 3000));
+    if x == SLOW_AT.load(Ordering::SeqCst) {
+        // one task much slower than all others (a big shard, a slow disk)
+        std::thread::sleep(std::time::Duration::from_millis(300));
+    }
     CALLS.lock().unwrap().push(x);
     if x == FAIL_AT.load(Ordering::SeqCst) {
         panic!("instrumented failure on {x}");
@@ -39,6 +44,7 @@ fn main() {
     for arg in std::env::args().skip(1) {
         let p: Vec<i64> = arg.split(',').map(|x| x.parse().unwrap()).collect();
         let (n, t, seed, drop_at, fail_at) = (p[0], p[1] as usize, p[2] as usize, p[3], p[4]);
+        SLOW_AT.store(if p.len() > 5 { p[5] } else { -1 }, Ordering::SeqCst);
         PULLS.store(0, Ordering::SeqCst);
         SEED.store(seed, Ordering::SeqCst);
         FAIL_AT.store(fail_at, Ordering::SeqCst);
